@@ -15,10 +15,10 @@ def Accepted (s : State) (t : Thread) : Prop :=
 /-- meaning of a result -/
 def ResMeaning (s : State) (t : Thread) : Option Res → Prop
   | some .ok => Accepted pl blob s t
-  | some .panic => t.pi < 0
+  | some .panic => False
   | some .errStore => False
   | some .errSum => Valid pl blob t ∧ t.payload ≠ pieceOf pl blob t.idx
-  | some .errIndex => (numPiecesOf pl blob.length : Int) ≤ t.pi
+  | some .errIndex => t.pi < 0 ∨ (numPiecesOf pl blob.length : Int) ≤ t.pi
   | some .errLength => 0 ≤ t.pi ∧ t.pi < (numPiecesOf pl blob.length : Int) ∧
       t.payload.length ≠ (pieceOf pl blob t.pi.toNat).length
   | some .errComplete => Valid pl blob t ∧ s.pieces[t.idx]? = some PStatus.complete
@@ -104,25 +104,24 @@ theorem RT_step_self (hpl : 0 < pl) {s : State} (hg : Good crc pl blob s) (tid k
     split at ht' <;> rename_i h1
     · rw [if_pos h1]; obtain rfl := set_self ht ht'
       simp only [RT, finish, ResMeaning]
-      rw [← hg.len_pieces]; exact h1
+      rw [← hg.len_pieces]
+      rcases h1 with h | h
+      · exact Or.inl h
+      · exact Or.inr h
     · rw [if_neg h1]
-      split at ht' <;> rename_i h2
-      · rw [if_pos h2]; obtain rfl := set_self ht ht'
-        simp only [RT, finish, ResMeaning]; exact h2
-      · rw [if_neg h2]
-        split at ht' <;> rename_i h3
-        · rw [if_pos h3]; obtain rfl := set_self ht ht'
-          simp only [RT, finish, ResMeaning]
-          have hidx : t.pi = ((t.pi.toNat : Nat) : Int) := by omega
-          have hlt : t.pi.toNat < numPiecesOf pl blob.length := by rw [← hg.len_pieces]; omega
-          refine ⟨by omega, by omega, ?_⟩
-          intro heq
-          apply h3
-          have hp := pieceLength_ofBlob crc pl blob hpl _ hlt
-          rw [← hidx] at hp
-          rw [hmi, hp, heq]
-        · rw [if_neg h3]; obtain rfl := set_self ht ht'
-          simp only [RT]
+      split at ht' <;> rename_i h3
+      · rw [if_pos h3]; obtain rfl := set_self ht ht'
+        simp only [RT, finish, ResMeaning]
+        have hidx : t.pi = ((t.pi.toNat : Nat) : Int) := by omega
+        have hlt : t.pi.toNat < numPiecesOf pl blob.length := by rw [← hg.len_pieces]; omega
+        refine ⟨by omega, by omega, ?_⟩
+        intro heq
+        apply h3
+        have hp := pieceLength_ofBlob crc pl blob hpl _ hlt
+        rw [← hidx] at hp
+        rw [hmi, hp, heq]
+      · rw [if_neg h3]; obtain rfl := set_self ht ht'
+        simp only [RT]
   case fastComplete =>
     have hv : Valid pl blob t := by have := htok.2; simpa [hpc] using this
     cases hp : s.pieces[t.idx]? with
@@ -284,7 +283,7 @@ theorem RTAll_step (hpl : 0 < pl) {s : State} (hg : Good crc pl blob s) (a : Act
     intro b u hu
     have hthreads : (step crc s .reopen).threads = s.threads := by
       simp only [step]; split
-      · unfold openTorrent; split
+      · rw [openTorrent_eq_core hg]; unfold openTorrentCore; split
         · rfl
         · simp only; split <;> rfl
       · rfl
@@ -294,7 +293,8 @@ theorem RTAll_step (hpl : 0 < pl) {s : State} (hg : Good crc pl blob s) (a : Act
 theorem RTAll_init (mi : MetaInfo) : RTAll pl blob (init mi) := by
   intro a u hu
   have : (init mi).threads = [] := by
-    unfold init openTorrent; simp only [Bool.false_eq_true, if_false]; split <;> rfl
+    unfold init openTorrent
+    split <;> (unfold openTorrentCore; simp only [Bool.false_eq_true, if_false]; split <;> rfl)
   rw [this] at hu; simp at hu
 
 end KrakenModel.Proof.C03
